@@ -4387,3 +4387,49 @@ impl Debug {
         }
     }
 }
+
+/// Private control state of the CPU, exposed for verification harnesses only.
+#[cfg(zilogz80_verif)]
+#[derive(Clone, Copy, Debug, PartialEq, Eq)]
+pub struct VerifCtl {
+    pub halt: bool,
+    pub int: Option<u8>,
+    pub nmi: bool,
+    pub im: u8,
+    pub iff1: bool,
+    pub iff2: bool,
+    pub slice_duration: u32,
+    pub slice_max_cycles: u32,
+    pub slice_current_cycles: u32,
+}
+
+#[cfg(zilogz80_verif)]
+impl CPU {
+    /// Reads the private control state.
+    pub fn verif_ctl(&self) -> VerifCtl {
+        VerifCtl {
+            halt: self.halt,
+            int: self.int,
+            nmi: self.nmi,
+            im: self.im,
+            iff1: self.iff1,
+            iff2: self.iff2,
+            slice_duration: self.slice_duration,
+            slice_max_cycles: self.slice_max_cycles,
+            slice_current_cycles: self.slice_current_cycles,
+        }
+    }
+
+    /// Presets the private control state.
+    pub fn verif_set_ctl(&mut self, c: VerifCtl) {
+        self.halt = c.halt;
+        self.int = c.int;
+        self.nmi = c.nmi;
+        self.im = c.im;
+        self.iff1 = c.iff1;
+        self.iff2 = c.iff2;
+        self.slice_duration = c.slice_duration;
+        self.slice_max_cycles = c.slice_max_cycles;
+        self.slice_current_cycles = c.slice_current_cycles;
+    }
+}
